@@ -836,6 +836,25 @@ func c04InCore(l []*c04Item, ctx int) bool {
 	return true
 }
 
+// c04Unmodelled: constructs the label machine of the proof has no step for: class-expression names (the merge of the
+// pending uses into the name), x => ... and the parenthesised arrow cover (UndeclareScope)
+func c04Unmodelled(l []*c04Item) bool {
+	for _, it := range l {
+		switch it.kind {
+		case c04KArrowId, c04KParen, c04KPRef:
+			return true
+		case c04KClass:
+			if it.nm >= 0 {
+				return true
+			}
+		}
+		if c04Unmodelled(it.a) || c04Unmodelled(it.b) {
+			return true
+		}
+	}
+	return false
+}
+
 // c04HasLoopOrName: some loop or function-expression name occurs
 func c04HasLoopOrName(l []*c04Item) bool {
 	for _, it := range l {
@@ -1013,6 +1032,13 @@ func c04Oracle(r *Rng, tier string, rep *Report) {
 			bucket = "early-error"
 		}
 		replay := map[string]interface{}{"source": src, "program": fmtInts(c04EncodeProg(l, nil)), "origin": origin}
+		// the fragment of resolution_correct_partial (c04InCore mirrors Spec.core_x) is the complement of the known
+		// deviations and of the constructs the proof does not model, on programs without redeclaration error
+		if ok {
+			if core, want := c04InCore(l, 0), len(feats) == 0 && !c04Unmodelled(l); core != want {
+				rep.Violate("c04-harness:fragment-not-exact", fmt.Sprintf("%q: in the fragment of the theorem: %v, free of known deviations %v and of unmodelled constructs: %v", src, core, feats, !c04Unmodelled(l)), replay)
+			}
+		}
 		p := c04ParseJS(src)
 		if p.pan != nil {
 			rep.Violate("c04-panic:"+src, fmt.Sprintf("js.Parse panics on %q: %v", src, p.pan), replay)
